@@ -399,7 +399,7 @@ impl<T: HeaderStore> HeaderValidator<T> {
 // ---------------------------------------------------------------------------------------
 // [trusted:stand-in] normalised txid (bitcoin::hashes::sha256d::Hash) — totally ordered value
 type Ntxid = u64;
-// [trusted:stand-in] bitcoin::Transaction — opaque; only is_coinbase / compute_ntxid are used
+// [trusted:stand-in] bitcoin::Transaction — opaque; only is_coinbase / compute_ntxid are used by the current tree
 struct Transaction { id: u64 }
 impl Transaction {
     uninterp spec fn is_coinbase_spec(&self) -> bool;
@@ -410,6 +410,14 @@ impl Transaction {
     // [trusted:assumed-spec] Transaction::compute_ntxid (rust-bitcoin): a function of the transaction
     #[verifier::external_body]
     fn compute_ntxid(&self) -> (r: Ntxid) ensures r == self.ntxid_spec() { unimplemented!() }
+    // the other ids rust-bitcoin offers (not used by the current tree): unrelated functions of the transaction, so that a
+    // uniqueness check keyed on one of them is decided (not merely unparsable)
+    uninterp spec fn txid_spec(&self) -> Ntxid;
+    uninterp spec fn wtxid_spec(&self) -> Ntxid;
+    #[verifier::external_body]
+    fn compute_txid(&self) -> (r: Ntxid) ensures r == self.txid_spec() { unimplemented!() }
+    #[verifier::external_body]
+    fn compute_wtxid(&self) -> (r: Ntxid) ensures r == self.wtxid_spec() { unimplemented!() }
 }
 // [trusted:stand-in] bitcoin::Block {header, txdata}
 struct Block { header: Header, txdata: Vec<Transaction> }
